@@ -95,7 +95,15 @@ func mutateInsert(current, value interface{}) (interface{}, interface{}) {
 	}
 	if vc.Kind() == reflect.Map && vv.Kind() == reflect.Map {
 		if vc.IsNil() && vv.Len() > 0 {
-			return value, value
+			// the new value must not share memory with the difference (nor
+			// with the mutation's own value): a later mutation of the same
+			// column inserts into the new value in place
+			nv := reflect.MakeMapWithSize(vv.Type(), vv.Len())
+			iter := vv.MapRange()
+			for iter.Next() {
+				nv.SetMapIndex(iter.Key(), iter.Value())
+			}
+			return nv.Interface(), value
 		}
 		diff := reflect.MakeMap(vc.Type())
 		iter := vv.MapRange()
